@@ -27,6 +27,8 @@ pub enum Payload {
     LzmaH13Provided { props: Props, dict: u32, ops: Vec<Op>, field: u64 },
     /// raw decoder, size Some(L)
     LzmaRaw { props: Props, dict: u32, ops: Vec<Op> },
+    /// raw decoder object constructed with size Some(init), reset(Some(Some(L))), reset(None)
+    LzmaRawReused { props: Props, dict: u32, ops: Vec<Op>, init: u64 },
     Lzma2 { chunks: Vec<Chunk>, raw_api: bool },
     /// converse: stream with end marker (no size) followed by bytes must be rejected
     LzmaMarker { props: Props, dict: u32, ops: Vec<Op> },
@@ -101,6 +103,7 @@ impl Property for C11 {
                     0 => Payload::LzmaH13 { props: *props, dict, ops },
                     1 => Payload::LzmaH5 { props: *props, dict, ops },
                     2 => Payload::LzmaH13Provided { props: *props, dict, ops, field: *field },
+                    3 if *field == 1 => Payload::LzmaRawReused { props: *props, dict, ops, init: (*dict_h as u64) % 50 },
                     3 => Payload::LzmaRaw { props: *props, dict, ops },
                     _ => Payload::LzmaMarker { props: *props, dict, ops },
                 }
@@ -175,6 +178,7 @@ impl Property for C11 {
             Payload::LzmaH5 { .. } => "LzmaH5",
             Payload::LzmaH13Provided { .. } => "LzmaH13Provided",
             Payload::LzmaRaw { .. } => "LzmaRaw",
+            Payload::LzmaRawReused { .. } => "LzmaRawReused",
             Payload::Lzma2 { .. } => "Lzma2",
             Payload::LzmaMarker { .. } => "LzmaMarker",
             Payload::Xz { .. } => "Xz",
@@ -210,6 +214,9 @@ impl Property for C11 {
                 sut::lzma_decompress(&input, &Opts::with(USize::ReadHeaderButUseProvided(Some(l))), &c.reader, &io)
             }
             Payload::LzmaRaw { props, dict, .. } => sut::raw_lzma(*props, *dict, Some(l), None, &input, &c.reader, &io),
+            Payload::LzmaRawReused { props, dict, init, .. } => {
+                sut::raw_lzma_reused(*props, *dict, *init, Some(l), true, &input, &c.reader, &io)
+            }
             Payload::Lzma2 { raw_api, .. } => {
                 if *raw_api {
                     sut::raw_lzma2(&input, &c.reader, &io)
@@ -274,6 +281,7 @@ fn describe(p: &Payload) -> String {
         Payload::LzmaH13 { props, dict, ops }
         | Payload::LzmaH5 { props, dict, ops }
         | Payload::LzmaRaw { props, dict, ops }
+        | Payload::LzmaRawReused { props, dict, ops, .. }
         | Payload::LzmaMarker { props, dict, ops }
         | Payload::LzmaH13Provided { props, dict, ops, .. } => {
             format!("lc{}lp{}pb{} dict={} ops=[{}]", props.lc, props.lp, props.pb, dict, program_text(ops, 12))
@@ -289,9 +297,10 @@ fn build(p: &Payload) -> Result<(Vec<u8>, Vec<u8>, usize), String> {
         Payload::LzmaH13 { props, dict, ops }
         | Payload::LzmaH5 { props, dict, ops }
         | Payload::LzmaRaw { props, dict, ops }
+        | Payload::LzmaRawReused { props, dict, ops, .. }
         | Payload::LzmaMarker { props, dict, ops }
         | Payload::LzmaH13Provided { props, dict, ops, .. } => {
-            let raw = matches!(p, Payload::LzmaRaw { .. });
+            let raw = matches!(p, Payload::LzmaRaw { .. } | Payload::LzmaRawReused { .. });
             let eff = if raw { *dict as u64 } else { (*dict as u64).max(4096) };
             let expected = interpret(ops, eff).map_err(|e| format!("{:?}", e))?;
             let marker = matches!(p, Payload::LzmaMarker { .. });
